@@ -164,7 +164,7 @@ func (g *docGen) ident() string {
 
 func (g *docGen) typeName() string {
 	if g.risky && g.r.Chance(25) {
-		return []string{"required", "optional"}[g.r.Intn(2)] + []string{"ness", "_t", "Params", "1"}[g.r.Intn(4)]
+		return []string{"required", "optional"}[g.r.Intn(2)] + []string{"ness", "_t", "Params", "X"}[g.r.Intn(4)]
 	}
 	return g.ident()
 }
